@@ -14,10 +14,18 @@
      S  the pre-filter never hides a node the pattern matches (MOR/MAND/MNOT/types/node patterns/unknown), hence search
         = walk filtered by match; the un-repaired MNOT rule is refuted by a concrete witness.
    Both defects these statements exposed at design time were repaired in /repo ("fix:" commits, known_findings.json).
-   NOT PROVED: capture priority (which parse is reported), quantified sub-lists that themselves contain quantifiers,
-   back-references, node/primitive matchers, layout independence: correspondence with `re` and the oracle (partial). *)
+     N  (models/MatchNested.v: quantified sub-lists that contain quantifiers, to any depth; one repetition is the FIRST
+        match of the sub-list and is then kept or given back whole - an atomic group, as docs/d11_match.py says: "the
+        backtracking from those quantifiers doesn't mix with the parent quantifier") whatever the matcher accepts is in
+        the regular language of the nested pattern (nmatch_sound, also for partial matches); the converse is REFUTED for
+        nested quantifiers with the witness (?:b.?b)?b on bbb (nmatch_complete_refuted) - the "corresponding regular
+        expression" of a nested repetition is the one with an atomic group, which is what the correspondence compares
+        with; on flat patterns the nested matcher accepts exactly the regular language and agrees with the flat model
+        (nmatch_flat_exact, nmatch_flat_agrees), through a completeness lemma for any deterministic repetition.
+   NOT PROVED: capture priority (which parse is reported), back-references, node/primitive matchers, layout
+   independence: correspondence with `re` and the oracle (partial). *)
 From Coq Require Import List Bool Arith.
-From PF Require Import models.Match proofs.MatchProofs.
+From PF Require Import models.Match proofs.MatchProofs models.MatchNested proofs.MatchNestedProofs.
 Import ListNotations.
 
 Theorem C17_list_matcher_accepts_the_regular_language : forall items, well_formed items -> forall tgt,
@@ -39,6 +47,38 @@ Theorem C17_naive_not_complement_refuted :
   pmatch (PNot p) (1, 8) = true /\ naive_leaf_not (nkind (1, 8)) = false.
 Proof. exact naive_not_complement_unsound. Qed.
 Print Assumptions C17_naive_not_complement_refuted.
+
+Theorem C17_nested_matcher_sound : forall items tgt r,
+  wf_items items = true -> nmatch items false tgt = Some r -> slang items tgt.
+Proof. exact nmatch_sound. Qed.
+Print Assumptions C17_nested_matcher_sound.
+
+Theorem C17_nested_repetition_sound : forall items tgt r,
+  wf_items items = true -> nmatch items true tgt = Some r -> exists a, tgt = a ++ snd r /\ slang items a.
+Proof. exact nmatch_partial_sound. Qed.
+Print Assumptions C17_nested_repetition_sound.
+
+Theorem C17_nested_completeness_refuted :
+  wf_items atomic_witness = true /\ slang atomic_witness [1; 1; 1] /\ nmatch atomic_witness false [1; 1; 1] = None.
+Proof. exact nmatch_complete_refuted. Qed.
+Print Assumptions C17_nested_completeness_refuted.
+
+Theorem C17_nested_matcher_exact_on_flat_patterns : forall items, well_formed items -> forall tgt,
+  nmatch (map embed_item items) false tgt <> None <-> lang items tgt.
+Proof. exact nmatch_flat_exact. Qed.
+Print Assumptions C17_nested_matcher_exact_on_flat_patterns.
+
+Theorem C17_nested_and_flat_models_agree : forall items, well_formed items -> forall tgt,
+  nmatch (map embed_item items) false tgt <> None <-> match_items items false tgt <> None.
+Proof. exact nmatch_flat_agrees. Qed.
+Print Assumptions C17_nested_and_flat_models_agree.
+
+(* non-vacuity of N: (?:a(?:b)*?){1,2}. on "abab" - each repetition takes a lazily extended "a", "ab": accepted with repetitions of length 1... *)
+Example C17_nested_nonvacuous :
+  let p := [NQ 1 (Some 2) true [NElem (ELit 0); NQ 0 None false [NElem (ELit 1)]]; NElem EAny] in
+  wf_items p = true /\ nmatch p false [0; 0; 1] = Some ([[1; 1]], []) /\ nmatch p false [0; 1; 1] = None /\
+  nmatch p false [0; 1] = Some ([[1]], []).
+Proof. repeat split; reflexivity. Qed.
 
 (* non-vacuity: (ab)*b on "ab" is rejected, on "abb" accepted; lazy a*? then .* *)
 Example C17_nonvacuous :
